@@ -85,7 +85,10 @@ theorem langMatch_notExists (item : Item) (env : Env) (hl : Interp.mkEnv [] item
         have : ahas [104] env.store = false := by simp [ahas, hs]
         rw [hhas] at this; simpa [ahas, alookup] using this
       simp [this, ha, Env.expandName, Env.splitDots, Env.splitDots.go, alookup, hs, pure, Except.pure]
+  have hu : Interp.undefinedValue notExistsH [] = false := by decide
   unfold Interp.langMatch
+  simp only [hu, Bool.false_eq_true, if_false]
+  unfold Interp.langMatchCore
   rw [parse_notExists]
   simp only [hl]
   have hev : Eval.eval env notExistsTree = .ok (.bool (!(ahas [104] item))) := by
